@@ -18,10 +18,6 @@ From Verif Require Import Base.Val C18.Fs C18.FsLemmas C18.Model_C18 C18.Spec_C1
 (* ======================================================= part 1 *)
 
 (* ------------------------------------------------------------------ path resolution on plain paths *)
-Definition nodot (c : str) : Prop := str_eqb c DOT = false /\ str_eqb c DOTDOT = false.
-Definition is_symo (o : option node) : bool := match o with Some n => is_sym_node n | None => false end.
-Definition is_diro (o : option node) : bool := match o with Some n => is_dir_node n | None => false end.
-
 (* if no symlink is met (at the last component only when it would be followed), a successful
    walk returns the path itself and every proper prefix is a directory *)
 Lemma walk_ok : forall todo fuel s cur follow cp,
@@ -346,9 +342,6 @@ Proof.
 Qed.
 
 (* ======================================================= part 3 *)
-
-(* proper, non-empty prefix *)
-Definition pprefix (q p : path) : Prop := exists suf, p = q ++ suf /\ q <> [] /\ suf <> [].
 
 (* a path whose components are ordinary names and on which no symlink is met *)
 Definition plain (s : fs) (p : path) (follow : bool) : Prop :=
@@ -1220,37 +1213,6 @@ Qed.
 Local Opaque walk FUEL.
 
 (* ------------------------------------------------------------------ the decidable domain *)
-Definition pprefixes (p : path) : list path := map (fun k => firstn k p) (seq 1 (length p - 1)).
-Definition pprefix_b (q p : path) : bool := negb (is_nil q) && strict_prefix q p.
-Definition nodot_b (c : str) : bool := negb (str_eqb c DOT) && negb (str_eqb c DOTDOT).
-Definition is_none {A} (o : option A) : bool := match o with None => true | Some _ => false end.
-Fixpoint nodup_paths (l : list path) : bool :=
-  match l with [] => true | p :: r => negb (mem_path p r) && nodup_paths r end.
-Definition same_data_b (c x : entry) : bool :=
-  match e_kind c, e_kind x with KFile d _, KFile d' _ => str_eqb d d' | _, _ => true end.
-
-(* NoAlias: the inputs on which no location of the set reaches another one through a symlink,
-   no '#new' name collides with the set, locations are distinct, and the offset exists *)
-Definition noalias (i : minput) : bool :=
-  let C := cset_of i in
-  let s0 := i_fs i in
-  (match offset_ops (i_umask i) s0 (i_offset i) with ([], None) => true | _ => false end)
-  && nodup_paths (map e_loc C)
-  && forallb (fun x =>
-       forallb nodot_b (e_loc x) && negb (is_nil (e_loc x)) && Nat.ltb (length (e_loc x)) 120
-       && forallb (fun q => negb (is_symo (lookup s0 q))) (pprefixes (e_loc x))
-       && (if is_kdir x then negb (is_symo (lookup s0 (e_loc x)))
-           else is_none (lookup s0 (sibling_new (e_loc x))))
-       && (if is_ksym x then negb (is_diro (lookup s0 (e_loc x))) else true)
-       && (if is_some (lookup s0 (e_loc x))
-           then forallb (fun q => is_diro (lookup s0 q)) (pprefixes (e_loc x)) else true)
-       && forallb (fun y =>
-            negb (path_eqb (sibling_new (e_loc x)) (e_loc y))
-            && negb (pprefix_b (sibling_new (e_loc x)) (e_loc y))
-            && (if is_kdir x then true else negb (pprefix_b (e_loc x) (e_loc y)))
-            && (if path_eqb (e_loc x) (e_loc y) then true
-                else if can_hl x y then is_none (lookup s0 (e_loc y)) && same_data_b x y else true)) C) C.
-
 Lemma pprefix_in q p : pprefix q p -> In q (pprefixes p).
 Proof.
   intros (suf & -> & Hq & Hs). unfold pprefixes. apply in_map_iff. exists (length q). split.
@@ -1336,10 +1298,6 @@ Proof.
 Qed.
 
 (* ------------------------------------------------------------------ merged_exact *)
-Definition installed (s0 : fs) (x : entry) (n : node) : Prop :=
-  realises x n \/
-  (is_kdir x = true /\ exists n0, lookup s0 (e_loc x) = Some n0 /\ keeps_dir x n0 n).
-
 Lemma all_done_incl i : incl (all_done i) (cset_of i).
 Proof.
   intros y Hy. unfold all_done in Hy. apply in_app_or in Hy as [Hy|Hy].
